@@ -27,6 +27,10 @@ TRUSTED = [
     "root renaming), tied each run: pySpace on every code point, escapeName / nameRoundTrip / roundTrips on adversarial "
     "names (the predicate must be exact on the real code), assignNames / makeTreeNames on label lists with repeats",
     "harness/c09_compose.py: independent newick writer, name generators, composition plans",
+    "translator/c09_names2lean.py (AST translation of TreeBuilder.__init__'s dict literal and the whole body of TreeBuilder._unique_name into "
+    "Gen/C09Newick.lean, conventions U1-U5 in its header: dict as insertion-ordered association list, `if not name: name = c` as "
+    "Python truthiness of None/str, str()/+ on str and int, the self call as fuel-bounded recursion with fuel len(dict)+1; each tied to the "
+    "real method by the gen_unique stream: arbitrary dict states, returned name AND dict afterwards compared)",
 ]
 ASSUMPTIONS = [
     "chain / route checks: node names are distinct, non-empty, have >= 2 characters, are not of the form edge*/root* and do not look like numbers; "
@@ -39,6 +43,27 @@ ASSUMPTIONS = [
     "lin_rajan_moret / matching_cluster (scipy linear_sum_assignment) are exercised against an exact assignment optimum (subset DP, <= 12 clusters), not modelled",
     "XML round trip only with names free of newick/XML metacharacters and blanks; JSON routes only with names free of newick metacharacters (known finding C09-json-unescaped-names)",
 ]
+
+def generate(ctx):
+    """wave 3: re-translate TreeBuilder.__init__ (dict literal) and TreeBuilder._unique_name from the CURRENT core/tree.py into
+    Gen/C09Newick.lean (translator/c09_names2lean.py); Props/C09.lean proves the generated definitions equal to Model/PhyloNames.lean"""
+    import sys
+
+    from .common import LEAN, SRC, VERIF
+
+    sys.path.insert(0, str(VERIF))
+    from translator import c09_names2lean as tr
+
+    gen = LEAN / "CogentModel" / "Gen" / "C09Newick.lean"
+    try:
+        lean, info, problems = tr.translate(SRC / "core" / "tree.py")
+    except (tr.TranslationError, SyntaxError) as e:
+        lean, info, problems = None, {}, [str(e)]
+    ctx.notes.append(f"c09_names2lean: {json.dumps(info)[:300]}")
+    if lean is not None and tr.write_if_changed(gen, lean):
+        ctx.notes.append("Gen/C09Newick.lean was rewritten (TreeBuilder's naming code differs from the last generated text)")
+    return [f"c09_names2lean: {p}" for p in problems]
+
 
 ERRS = ("TreeError", "ValueError", "AttributeError", "TypeError")
 PER_SIG = 4  # failures kept per signature (signatures are narrow classes, so nothing new is crowded out)
@@ -182,7 +207,8 @@ def correspondence(ctx):
         "(loaded names, lengths, child order), tip order, the whole get_distances dict, error class; plus newick "
         "token streams / parser (valid and malformed) and rf/rrf/urf tree distances; name models: pySpace vs str.isspace on all code points, "
         "escapeName / nameRoundTrip / roundTrips vs get_newick + parse_string on ~1500 adversarial names (any characters), assignNames / "
-        "makeTreeNames vs TreeBuilder._unique_name / make_tree on label lists with repeats.  non-trivial = distinct "
+        "makeTreeNames vs TreeBuilder._unique_name / make_tree on label lists with repeats; the TRANSLATED _unique_name (Gen/C09Newick.lean) vs "
+        "the real method on arbitrary dict states (returned names and the dict afterwards, insertion order included).  non-trivial = distinct "
         "(tree, chain) whose last step changes the ordered nested form or raises"
     )
     rng = ctx.subrng("corr")
